@@ -351,8 +351,67 @@ def mutations(ctx, sentences, n):
     ctx.coverage["traces_validated_against_impl"] = ctx.coverage.get("traces_validated_against_impl", 0) + len(obs) - len(bad)
 
 
-# ------------------------------------------------------------------ pins of Python primitives
+# ------------------------------------------------------------------ pins
+# the source texts the scanners of Model/Lex.v and the tables of Model/ParseM.v were written against
+PINNED = {
+    "_search_atom": r"[a-zA-Z]+",
+    "_fetch_att_atom": r"[a-zA-Z82\.]+",
+    "_number": r"\d+",
+    "_msg_set_pair": r"^(\d+|\*):(\d+|\*)$",
+    "_msg_set": r"[\d,:*]+",
+    "_atom": r'[^\(\)\{\} \000-\037\177%\*"\\]+',
+    "_fetch_att_macros": r"(all)|(full)|(fast)",
+    "_list_atom": r'[^\(\)\{\} \000-\037\177"\\]+',
+    "_plus_or_minus": r"[-\+]",
+    "_tag": r'[^\+\(\)\{\} \000-\037\177%\*"\\]+',
+    "_quoted": r'"(([^\015\012\\"]|\\["\\])*)"',
+    "_lit_ref": r"\{(\d+)\+?\}\015\012",
+    "_date_time": (r'"(?P<day>[ \d]\d)-(?P<month>(Jan)|(Feb)|(Mar)|(Apr)|(May)|(Jun)|(Jul)|(Aug)|(Sep)|(Oct)|(Nov)|(Dec))-'
+                   r'(?P<year>\d\d\d\d) (?P<hour>\d\d):(?P<sec>\d\d):(?P<min>\d\d) (?P<tz_hr>[-+]\d\d)(?P<tz_min>\d\d)"'),
+    "_date": (r'(")?(?P<day>\d?\d)-(?P<month>(Jan)|(Feb)|(Mar)|(Apr)|(May)|(Jun)|(Jul)|(Aug)|(Sep)|(Oct)|(Nov)|(Dec))-'
+              r'(?P<year>\d\d\d\d)(?(1)")'),
+}
+PINNED_VALUES = {
+    "uid_commands": ("copy", "fetch", "move", "search", "store", "expunge"),
+    "MAX_SEARCH_KEY_DEPTH": 32,
+}
+SEARCH_KEYS = sorted(["all", "answered", "bcc", "before", "body", "cc", "deleted", "draft", "flagged", "from", "header",
+                      "keyword", "larger", "new", "not", "old", "on", "or", "recent", "seen", "sentbefore", "senton",
+                      "sentsince", "since", "smaller", "subject", "text", "to", "uid", "unanswered", "undeleted",
+                      "undraft", "unflagged", "unkeyword", "unseen"])
+COMMANDS = sorted(X.NOARG + X.MBOXCMD + ["append", "authenticate", "copy", "expunge", "fetch", "id", "list", "login", "lsub",
+                                         "move", "rename", "search", "status", "store", "uid"])
+
+
+def source_pins(ctx):
+    """a changed regular expression / table is not yet a violation: it makes the tie suspect (the correspondence
+    run that follows looks for an input on which the change shows)"""
+    import asimap.parse as P
+
+    diffs = []
+    for name, text in PINNED.items():
+        if getattr(P, name, None) != text:
+            diffs.append({"pin": name, "model_written_for": text, "source_now": getattr(P, name, None)})
+    for name, val in PINNED_VALUES.items():
+        if getattr(P, name, None) != val:
+            diffs.append({"pin": name, "model_written_for": repr(val), "source_now": repr(getattr(P, name, None))})
+    keys = sorted(n[len("_p_srchkey_"):] for n in dir(P.IMAPClientCommand) if n.startswith("_p_srchkey_"))
+    if keys != SEARCH_KEYS:
+        diffs.append({"pin": "_p_srchkey_* methods", "only_in_source": sorted(set(keys) - set(SEARCH_KEYS)),
+                      "only_in_model": sorted(set(SEARCH_KEYS) - set(keys))})
+    cmds = sorted(str(c.value) for c in P.IMAPCommand)
+    if cmds != COMMANDS:
+        diffs.append({"pin": "IMAPCommand", "only_in_source": sorted(set(cmds) - set(COMMANDS)),
+                      "only_in_model": sorted(set(COMMANDS) - set(cmds))})
+    if P._date_re.flags & 2 == 0 or P._date_time_re.flags & 2 == 0 or P._fetch_att_macros_re.flags & 2 == 0:
+        diffs.append({"pin": "re.IGNORECASE on _date_re/_date_time_re/_fetch_att_macros_re"})
+    for d in diffs[:6]:
+        ctx.proof_broken.append(dict(d, what="pin: asimap/parse.py no longer has the text the model mirrors"))
+    ctx.extra["source_pins"] = {"checked": len(PINNED) + len(PINNED_VALUES) + 3, "differences": len(diffs)}
+
+
 def pins(ctx):
+    source_pins(ctx)
     out = ctx.coq.eval_cases("c08p", HEADER + "Eval vm_compute in lower_table.\n")
     tbl = _indices(core.parse_coq_values(out)[0])
     py = [ord(chr(i).lower()) for i in range(256)]
